@@ -138,7 +138,8 @@ func vpCheckRead(dec FieldDecoder, ref []byte) {
 		vp.Assert(n == int64(len(ref)), "read n==layout length")
 		vp.Assert(r.Len() == len(trail), "reader advanced by exactly n")
 	} else {
-		r := &vpPlainReader{b: stream}
+		// a plain reader delivering everything at once, or one byte per Read
+		r := &vpPlainReader{b: stream, chunk: vp.Choice(2)}
 		n, err := dec.ReadFrom(r)
 		vp.Assert(err == nil, "read err==nil")
 		vp.Assert(n == int64(len(ref)), "read n==layout length")
